@@ -722,8 +722,15 @@ def execute(run, props, force_trace=False):
                     mem["seed_spans"] = None
                     mem["clean"] = not any(isinstance(b, M.ParsingFailedBlock) for b in lib.blocks)
                 if prop == "C05":
+                    def _txt(b_):
+                        # the statement compares written TEXT; how an empty text is laid down (nothing at all, or a
+                        # byte-order mark only) depends on the target the save went through, not on the writer
+                        try:
+                            return b_.decode(enc)
+                        except UnicodeError:
+                            return b_
                     if p == "again.bib":
-                        if c05["bytes"] is not None and data != c05["bytes"]:
+                        if c05["bytes"] is not None and data != c05["bytes"] and _txt(data) != _txt(c05["bytes"]):
                             a, b_ = c05["bytes"], data
                             i = next((i for i in range(min(len(a), len(b_))) if a[i] != b_[i]), min(len(a), len(b_)))
                             V("C05", "fixpoint", "second-save-differs", step,
